@@ -129,14 +129,17 @@ def observe(o, meta, seed):
     rnd = random.Random(seed)
     proj = P.to_dy(P.project(o))
     rays = []
+    # Scatter models draw from numba's internal generator, which cannot be seeded from
+    # outside, so two traces of one lens already differ; and optiland.scatter.scatter()
+    # (fastmath, `while True`) does not terminate for a non-finite incoming ray.  Lenses
+    # with a BSDF are therefore compared on prescription, dictionary form and paraxial
+    # values only.
     nb = any(s.bsdf is not None for s in o.surface_group.surfaces)
-    for w in o.wavelengths.get_wavelengths()[:2]:
+    for w in ([] if nb else o.wavelengths.get_wavelengths()[:2]):
         n = 4
         Hy = np.array([rnd.uniform(-1, 1) for _ in range(n)])
         rr = np.sqrt(np.array([rnd.random() for _ in range(n)])) * 0.9
         th = np.array([rnd.uniform(0, 2 * math.pi) for _ in range(n)])
-        if nb:
-            np.random.seed(12345)        # scatter models draw from numpy's global generator
         try:
             G.quiet(o.trace_generic, np.zeros(n), Hy, rr * np.cos(th), rr * np.sin(th), w)
             sg = o.surface_group
@@ -211,6 +214,9 @@ def classify(ev, clause):
         cls["error"] = msg.split(":")[0]
         cls["fresnel"] = "fresnel" in m["features"]
         cls["ndarray_position"] = "ndarray" in msg
+        import re
+        m2 = re.search(r"Object of type (\w+) is not JSON serializable", msg)
+        cls["not_serialisable"] = m2.group(1) if m2 else ""
     return cls
 
 
@@ -225,16 +231,13 @@ def main(ctx):
             depth = 3
         ctx.model_check("MC_Lens", c01.write_cfg(ctx, "edit_%s.cfg" % b,
                                                  c01.cfg_text(base=b, depth=depth, extras="AllExtras")), workers=16)
+    # (SaveLoad does not change the VIEW of the model, so -dump never shows it as a new state:
+    # behaviours containing save_load steps come from simulation)
     jobs = []
-    for b in c01.BASES:
-        jobs += c01.gen_dump(ctx, "gen_%s" % b, c01.cfg_text(base=b, depth=3, radii="SmallRadii", thick="SmallThick",
-                                                             invs=False, props=False, extras="AllExtras"), None)
-    # behaviours that actually contain a save_load step
-    jobs = [j for j in jobs if any(c["op"] == "save_load" for c in j[1])]
     sims = []
     for b in c01.BASES:
         sims += c01.gen_sim(ctx, "sim_%s" % b, c01.cfg_text(base=b, depth=40, invs=False, props=False, extras="AllExtras"),
-                            60 if quick else 800, 10 if quick else 16, ctx.seed + 5)
+                            150 if quick else 1500, 10 if quick else 16, ctx.seed + 5)
     sims = [j for j in sims if any(c["op"] == "save_load" for c in j[1])]
     if quick and len(jobs) > 800:
         jobs = rnd.sample(jobs, 800)
@@ -307,5 +310,5 @@ def main(ctx):
         from harness.tlc import MachineryError
         raise MachineryError("calibration: corrupted reload events accepted: %s" % missed)
     ctx.extra["calibration"] = {"corruptions": len(cal), "missed": 0}
-    ctx.assumptions += ["scatter models draw from numpy's global generator: the driver re-seeds it identically before tracing the original and the reloaded lens",
+    ctx.assumptions += ["lenses with a scatter model (random, unseedable; scatter() hangs on non-finite rays) are compared on prescription, dictionary form and paraxial values, not on rays",
                         "dictionary forms are compared as canonical JSON text (sorted keys) by TLC string equality"]
